@@ -6,6 +6,7 @@ Line-protocol front end of the C02 model (requests after the leading `C02` field
   run <mainLocals> <fuel> <program>     program := space-separated S-expression tokens
      (prog s…)  s,e := (i N) (n) (F) (ch) (v x) (+ a b) (fn name (p…) s…) (c f a…) (l e…)
                        (x e i) (m e…) (k e i) (r kind a…) (d x e) (a x e) (ret e)
+                       (+= x e) (-= x e) (++ x) (-- x) (ma (x…) e) (md (x…) e)
   reply: <Impl outcome> TAB <Spec outcome> TAB <MAKE_CELL groups> TAB <deep>
      outcome := ok <value> | err <class> | undef
      groups  := per function literal with free variables "slot:back,slot:back" joined by ";" ("-" if none)
@@ -69,6 +70,12 @@ def toTm : Nat → SExp → Option Tm
     | "r", .atom k :: as => do pure (.route (← routeOf k) (← toTms n as))
     | "d", [.atom x, e] => do pure (.decl x (← toTm n e))
     | "a", [.atom x, e] => do pure (.assign x (← toTm n e))
+    | "+=", [.atom x, e] => do pure (.opassign x false (← toTm n e))
+    | "-=", [.atom x, e] => do pure (.opassign x true (← toTm n e))
+    | "++", [.atom x] => some (.postfix x false)
+    | "--", [.atom x] => some (.postfix x true)
+    | "ma", [.list xs, e] => do pure (.massign (← atomsOf xs) (← toTm n e))
+    | "md", [.list xs, e] => do pure (.mdecl (← atomsOf xs) (← toTm n e))
     | "ret", [e] => do pure (.ret (← toTm n e))
     | _, _ => none
   | _ + 1, _ => none
